@@ -13,6 +13,47 @@ OUTPUTS = ['BacktestTradingSession.run', 'BacktestTradingSession.get_equity_curv
 BACKWARD = {'bfill', 'backfill', 'interpolate'}
 
 
+def _field_time_arg(ctx, fn, n, callee, p):
+    from ..symex import Undecided
+    from ..lib import read_marker
+    try:
+        ps = summarise(ctx, fn, policy=default_policy)
+    except Undecided:
+        return None
+    site = fn.site(n)
+    seen = []
+    for q in ps:
+        for e in q.flat_events():
+            if e.kind == 'call' and e.site == site and any(callee.qn == c_ or callee.qn in c_ for c_ in e.callee):
+                seen.append((q, e.args.get(p)))
+    if not seen and callee.name == '__init__' and callee.cls is not None:
+        # a record built on the path (its constructor is read through): the time it was given is the field the constructor keeps it in
+        for q in ps:
+            for t_ in all_terms_of(q):
+                for s_ in T.subterms(t_):
+                    if s_[0] == 'new' and s_[1] == callee.cls.name and p in dict(s_[2]):
+                        seen.append((q, dict(s_[2])[p]))
+    if not seen or any(v_ is None for _, v_ in seen):
+        return None
+    params = [x_ for x_ in fn.params if x_ not in ('self', 'cls')]
+    verdicts = set()
+    for q, v_ in seen:
+        if v_[0] == 'var' and v_[1] in params and v_[1] in vf.TIME_PARAMS:
+            verdicts.add(('ok', 'the field holds the request\'s own time (%s) where the call is made' % fmt(v_)))
+        elif v_[0] == 'attr' and v_[1][0] == 'var' and v_[1][1] in params and v_[2] == 'dt':
+            verdicts.add(('ok', 'the field holds the request\'s own time (%s) where the call is made' % fmt(v_)))
+        elif v_[0] == 'attr' and v_[1] == V('self') and read_marker(ctx, q):
+            verdicts.add(('bad', 'self.%s as the previous request left it - on path [%s] nothing has moved it to the time of this request before the call' % (v_[2], cond_str(q)[:80])))
+        else:
+            verdicts.add(('unknown', fmt(v_)[:60]))
+    kinds = {k_ for k_, _ in verdicts}
+    if kinds == {'ok'}:
+        return sorted(verdicts)[0]
+    if 'bad' in kinds and 'unknown' not in kinds:
+        return next(v_ for v_ in sorted(verdicts) if v_[0] == 'bad')
+    return None
+
+
 def check(ctx):
     M = ctx.M
     from ..lib import discarded_results
@@ -85,7 +126,16 @@ def check(ctx):
             ctx.violation('C07.S2', inst, fn.site(n), 'the time argument is %s; every price/universe/exchange lookup during a run must be made at the current event time' % why,
                           key='C07.S2|%s|%s|%s' % (fn.qn, callee.qn, p))
         else:
-            ctx.undecided('C07.S2', inst, fn.site(n), 'unrecognised time argument: %s' % why)
+            # a field of the object (the portfolio's clock): what it holds where the call is made, on every path of the method as its callers see it (through its
+            # decorators) - the request's own time once the clock was moved to it, the time of some EARLIER request while it was not
+            sv = _field_time_arg(ctx, fn, n, callee, p) if isinstance(a, ast.Attribute) and isinstance(a.value, ast.Name) and a.value.id == 'self' else None
+            if sv is not None and sv[0] == 'ok':
+                ctx.holds('C07.S2', inst + ': ' + sv[1], fn.site(n))
+            elif sv is not None and sv[0] == 'bad':
+                ctx.violation('C07.S2', inst, fn.site(n), 'READ: the time argument is %s; every record made during a run carries the time of the request it records' % sv[1],
+                              key='C07.S2|%s|%s|%s' % (fn.qn, callee.qn, p))
+            else:
+                ctx.undecided('C07.S2', inst, fn.site(n), 'unrecognised time argument: %s' % why)
     ctx.sample({'rule': 'C07.S2', 'time_call_sites': len(sites), 'idioms': idioms})
     # the event time itself: run takes dt from the event and nothing else
     ps = summarise(ctx, RUN, policy=no_inline)
